@@ -20,7 +20,8 @@ type C19Case struct {
 	FR    c2.FillRule `json:"fr"`
 	Extra []P         `json:"extra"`
 	// Entry: 0 BooleanOpPaths64, 1 the convenience wrappers, 2 an engine fed path by path,
-	// 4 one engine object executing Union, Intersection, Difference and Xor in turn
+	// 4 one engine object executing Union, Intersection, Difference and Xor in turn,
+	// 5 an engine fed through the single-path AddPath
 	Entry int `json:"entry,omitempty"`
 }
 
@@ -79,7 +80,7 @@ func drawC19(t *rapid.T) *C19Case {
 		case 1:
 			c.Clip = Paths{}
 		}
-		c.Entry = rapid.SampledFrom([]int{0, 0, 1, 2, 4}).Draw(t, "entry")
+		c.Entry = rapid.SampledFrom([]int{0, 0, 1, 2, 4, 5}).Draw(t, "entry")
 	}
 	c.FR = rapid.SampledFrom(allFillRules).Draw(t, "fr")
 	for i, n := 0, rapid.IntRange(0, 6).Draw(t, "nExtra"); i < n; i++ {
@@ -105,8 +106,11 @@ func eventAreas(evs []c2.VerifEvent, kinds ...string) float64 {
 func judgeC19(c *C19Case, cx *Ctx) *Violation {
 	var pooled []c2.VerifEvent
 	entry := c.Entry
-	if entry == 4 {
+	switch entry {
+	case 4:
 		entry = 0
+	case 5:
+		entry = 4 // runBoolean's engine fed through the single-path AddPath
 	}
 	run := func(ct c2.ClipType, s, cl Paths) Paths {
 		sol, evs := runBoolean(entry, ct, c.FR, s, cl)
